@@ -125,7 +125,40 @@ macro_rules! simd_struct {
         }
     };
 }
-//@ h=k_sse41_d32 props=C02,C07,C17 cfgs=K6 tier=q t=900 | funcs: x86_sse4_1::distance_32 (unaligned loads, accumulation, horizontal sum) | bound: all pairs of 32-byte bodies and ALL lane values up to the lane maximum 96: loads exactly the consecutive 16-byte chunks of both bodies in order, result == sum of all lanes | stubs: packed add/sub/mullo intrinsics -> lane-wise wrapping models (Intel pseudo-code); the SSE4.1 kernel -> logging stub returning arbitrary bounded lanes (kernel itself: k_sse41_lane)
+//@ h=k_sse41_d32 props=C02,C07,C17 cfgs=K6 tier=q t=900 native=native_k_sse41_extremes | funcs: x86_sse4_1::distance_32 (unaligned loads, accumulation, horizontal sum) | bound: all pairs of 32-byte bodies and ALL lane values up to the lane maximum 96: loads exactly the consecutive 16-byte chunks of both bodies in order, result == sum of all lanes | stubs: packed add/sub/mullo intrinsics -> lane-wise wrapping models (Intel pseudo-code); the SSE4.1 kernel -> logging stub returning arbitrary bounded lanes (kernel itself: k_sse41_lane)
 simd_struct!(k_sse41_d32, distance_32, 32, 2);
-//@ h=k_sse41_d64 props=C02,C07,C17 cfgs=K6 tier=q t=900 | funcs: x86_sse4_1::distance_64 | bound: all pairs of 64-byte bodies and all bounded lane values: right chunks in order, result == sum of all lanes (no lane overflow) | stubs: packed add/sub/mullo intrinsics -> lane-wise wrapping models (Intel pseudo-code); the SSE4.1 kernel -> logging stub
+//@ h=k_sse41_d64 props=C02,C07,C17 cfgs=K6 tier=q t=900 native=native_k_sse41_extremes | funcs: x86_sse4_1::distance_64 | bound: all pairs of 64-byte bodies and all bounded lane values: right chunks in order, result == sum of all lanes (no lane overflow) | stubs: packed add/sub/mullo intrinsics -> lane-wise wrapping models (Intel pseudo-code); the SSE4.1 kernel -> logging stub
 simd_struct!(k_sse41_d64, distance_64, 64, 4);
+
+/// Native confirmation for the structure lemmas (their counterexamples are lane values of the
+/// stubbed kernel, which do not determine concrete bodies): extreme and half-extreme bodies
+/// through the real functions against the reference sum.
+#[cfg(test)]
+#[test]
+fn native_k_sse41_extremes() {
+    if !std::arch::is_x86_feature_detected!("sse4.1") {
+        return;
+    }
+    let pats: [(u8, u8); 6] = [(0x00, 0xff), (0xff, 0x00), (0x00, 0xaa), (0x55, 0xff), (0x00, 0x00), (0x12, 0xed)];
+    for &(x, y) in pats.iter() {
+        for split in [0usize, 8, 16, 24, 32, 48, 64] {
+            let mut a32 = [x; 32];
+            let mut b32 = [y; 32];
+            let mut a64 = [x; 64];
+            let mut b64 = [y; 64];
+            // bytes from `split` on are equal (distance 0 there)
+            for i in split.min(32)..32 {
+                a32[i] = 0x3c;
+                b32[i] = 0x3c;
+            }
+            for i in split..64 {
+                a64[i] = 0x3c;
+                b64[i] = 0x3c;
+            }
+            let r32: u32 = (0..32).map(|i| ref_dist_body_byte(a32[i], b32[i])).sum();
+            let r64: u32 = (0..64).map(|i| ref_dist_body_byte(a64[i], b64[i])).sum();
+            assert_eq!(unsafe { distance_32(&a32, &b32) }, r32);
+            assert_eq!(unsafe { distance_64(&a64, &b64) }, r64);
+        }
+    }
+}
